@@ -542,9 +542,12 @@ def straightened(t, newpos):
     return dict(t, pos=newpos, edges=edges)
 
 
-def dynamic_events(case, spec, rng):
+def dynamic_events(case, spec, rng, units=(1.0, 1.0), phys_run=None):
     import forsys as fs
     sim = make_similarity(spec, rng)
+    alpha, beta = units          # common factor on all time stamps / on all lengths (C06 unit changes)
+    if beta != 1.0:
+        sim = tissue.Similarity(sim.theta, sim.scale * beta, sim.tx * beta, sim.ty * beta, reflect=sim.reflect)
     for _ in range(12):
         t = make_tissue(spec, rng)
         # arbitrary positive tensions of mean one over the inferred interfaces
@@ -564,7 +567,7 @@ def dynamic_events(case, spec, rng):
     extent = max(abs(z1 - z2) for z1 in t["pos"].values() for z2 in t["pos"].values())
     step = spec.get("step_frac", 0.15) * min(spacing, 0.08 * extent * 4)      # model-frame displacement of the fastest junction
     # physical: positions scale with sim.scale, velocities are forces (unit mobility): displacement = dt * v
-    dt_tau = step * sim.scale / vmax
+    dt_tau = step * (sim.scale / beta) / (vmax * float(spec.get("mobility", 1.0)))       # physical time step of the un-rescaled series
     partner = tau + 1 if tau < nframes - 1 else tau - 1
     stamps = [0.0]
     for f in range(1, nframes):
@@ -572,7 +575,10 @@ def dynamic_events(case, spec, rng):
         stamps.append(stamps[-1] + dt_tau * (rng.choice([1.0, 0.3, 0.6]) if gap_is_inferred else rng.choice([1.0, 0.3, 3.0, 12.0])))
     dt = abs(stamps[partner] - stamps[tau]) if partner != tau else dt_tau
     # make the stamp difference between tau and its partner exactly the dt used for the displacement
-    disp_model = {a: (vel[a] * (dt / sim.scale) if a in used else 0j) for a in t["pos"]}
+    # mobility: displacement = mobility * elapsed time * resultant (1 unless the inference is adimensional, where it cancels)
+    mob = float(spec.get("mobility", 1.0))
+    disp_model = {a: (vel[a] * mob * (dt / (sim.scale / beta)) if a in used else 0j) for a in t["pos"]}
+    stamps = [alpha * s_ for s_ in stamps]
     frames_t = {}
     for f in range(nframes):
         if f == tau:
@@ -611,7 +617,7 @@ def dynamic_events(case, spec, rng):
     extent_e = extent * sim.scale
     extra = {"equilibrium": False, "tolT": 0, "dynamic": tolD is not None, "tolD": fx(tolD) if tolD else 0, "consistent_truth": True,
              "offset_sizes": int(min(math.hypot(sim.tx, sim.ty) / extent_e, 10 ** 6)),
-             "nframes": nframes, "when": tau}
+             "nframes": nframes, "when": tau, "tolC": fx(tol_static) if tol_static else 0, "conditioned": tol_static is not None}
     evs.append(env_event(case, t, k, sim, o["info"], vidx, cell_of_model, spec["want"], extra, frame=frame))
     forsys = fs.ForSys(frames, cm=False)
     fit = spec.get("build", {}).get("fit", "dlite")
@@ -621,7 +627,8 @@ def dynamic_events(case, spec, rng):
         fmx = forsys.force_matrices[tau]
         bev["fm"] = project_force_matrix(fmx, vidx, frame)
         bev["vs"] = []
-        b_un, _ = fmx.set_velocity_matrix(forsys.mesh, b_matrix="velocity")
+        b_un, _ = fmx.set_velocity_matrix(forsys.mesh, b_matrix="velocity",
+                                          **({"adimensional_velocity": True} if spec.get("solve", {}).get("adimensional") else {}))
         b3 = np.asarray(b_un, dtype=float).flatten().round(3)
     except Exception as exc:
         import traceback
@@ -631,6 +638,9 @@ def dynamic_events(case, spec, rng):
     evs.append(bev)
     method = spec.get("solve", {}).get("method", "default")
     kwargs = {"b_matrix": "velocity"}
+    adim = bool(spec.get("solve", {}).get("adimensional"))
+    if adim:
+        kwargs["adimensional_velocity"] = True
     if method != "default":
         kwargs["method"] = method
     sev = {"case": case, "ev": "SolveStress", "raised": "",
@@ -650,13 +660,17 @@ def dynamic_events(case, spec, rng):
         import traceback
         sev["raised"] = type(exc).__name__ + ": " + traceback.format_exc()[-300:]
     evs.append(sev)
+    if phys_run is not None:
+        o["model_cell_of_desc"] = list(range(len(o["desc"]["C"])))
+        g = {"rot": [[fx(sim.rot[0][0]), fx(sim.rot[0][1])], [fx(sim.rot[1][0]), fx(sim.rot[1][1])]], "kind": "units"}
+        evs.append(phys_event(case, phys_run, t, o, frame, forsys, vidx, g, when=tau))
     return evs
 
 
 # ------------------------------------------------------------------------------------------------
 # two-run equivariance cases (C06: similarity / units, C07: labels / storage order / orientation)
 # ------------------------------------------------------------------------------------------------
-def phys_event(case, run, t, o, frame, forsys, vidx, g):
+def phys_event(case, run, t, o, frame, forsys, vidx, g, when=0):
     """results keyed by PHYSICAL identity (junction-level vertex ids of the tissue, model cell index), obtained by
     undoing the known relabelling of this run (projection, no judgement)"""
     info = o["info"]
@@ -670,12 +684,12 @@ def phys_event(case, run, t, o, frame, forsys, vidx, g):
         return qof.get(frozenset((a, b)), 0) if a is not None and b is not None else 0
 
     internal = list(frame.internal_big_edges)
-    x = forsys.forces.get(0)
+    x = forsys.forces.get(when)
     tens = []
     if x is not None:
         for k_, be in enumerate(internal):
             tens.append([q_of(be), fx(float(x[k_]))])
-    fm = forsys.force_matrices.get(0)
+    fm = forsys.force_matrices.get(when)
     coefs, junctions = [], []
     if fm is not None:
         M = np.asarray(fm.matrix, dtype=float)
@@ -706,6 +720,13 @@ def phys_event(case, run, t, o, frame, forsys, vidx, g):
 def pair_events(case, spec, rng):
     """two runs of the same abstract tissue: run 1 under (sim, ids, group) = spec['runA'], run 2 under spec['runB']"""
     import forsys as fs
+    if spec.get("pair_kind") == "units":
+        # the same dynamic series in two unit systems: all time stamps x alpha and / or all lengths x beta
+        evs = []
+        for run, units in ((1, (1.0, 1.0)), (2, tuple(spec["units"]))):
+            np.seterr(all="raise")
+            evs += dynamic_events(case, spec, random.Random(spec.get("seed", 0)), units=units, phys_run=run)
+        return evs
     t = make_tissue(spec, rng)
     k = spec.get("k", 3)
     simA = make_similarity({"sim": spec["runA"].get("sim")}, rng)
